@@ -528,7 +528,6 @@ func checkKeyWiring(c *Ctx, r *Report, tr map[string]*ssa.Function) {
 	r.Check(lit["SIK"] == ssa.Value(cs), name+"|session.SIK", m.Lit.Pos(), "session SIK field is the computed SIK", "the session's SIK field is not the SIK computed from this exchange")
 
 	// same hash family for all HMACs: all from methods of one params object selected by the response's authentication algorithm
-	r.Rule("algorithm-tables", "authentication algorithm → (hash constructor, ICV truncation) and integrity algorithm → (hash constructor, truncation) tables equal IPMI v2.0 tables 13-17/13-18; truncatedHash.Sum returns len(b)+length bytes; K_n hashes 20 copies of byte n", 8)
 	checkAlgorithmTables(c, r)
 }
 
@@ -584,6 +583,7 @@ func switchArms(fn *ssa.Function) map[int64]*ssa.Return {
 }
 
 func checkAlgorithmTables(c *Ctx, r *Report) {
+	r.Rule("algorithm-tables", "authentication algorithm → (hash constructor, ICV truncation) and integrity algorithm → (hash constructor, truncation) tables equal IPMI v2.0 tables 13-17/13-18; truncatedHash.Sum returns len(b)+length bytes; K_n hashes 20 copies of byte n", 8)
 	// authentication algorithms
 	var authFn, integFn, ciphFn *ssa.Function
 	aa := c.Named("pkg/ipmi", "AuthenticationAlgorithm")
